@@ -36,6 +36,7 @@ struct Ctx
     bool is_worker[64] = { false };
     int nested = 0; // messages logged by the logger thread itself (relog handler)
     int nesting = 0; // relog calls in progress
+    QSharedPointer<QtLogger::Sink> own_sinks[64]; // C08 thread slice: one sink per producer
     bool destroying = false; // the handler object is being (or about to be) destroyed: nobody may log through it
     bool slow_done[64] = { false };
 };
